@@ -6,6 +6,7 @@ import (
 	"fmt"
 	"io"
 	"net"
+	"os"
 	"strings"
 	"sync"
 	"sync/atomic"
@@ -73,6 +74,10 @@ func (t *Tracer) Hook(label string, conn, req int) {
 // Block arranges for the next goroutine reaching the point to wait there until Release.
 func (t *Tracer) Block(label string, conn, req int) *gate {
 	g := &gate{label: label, conn: conn, req: req, arrived: make(chan struct{}), release: make(chan struct{})}
+	if noTrace {
+		close(g.arrived)
+		return g
+	}
 	t.mu.Lock()
 	t.gates = append(t.gates, g)
 	t.mu.Unlock()
@@ -102,6 +107,13 @@ func (t *Tracer) ReleaseAll() {
 
 // Wait blocks until an event matching (label, conn, req) with -1 wildcards has been logged.
 func (t *Tracer) Wait(label string, conn, req int, d time.Duration) bool {
+	if noTrace {
+		if d > 40*time.Millisecond {
+			d = 40 * time.Millisecond
+		}
+		time.Sleep(d)
+		return true
+	}
 	deadline := time.Now().Add(d)
 	t.mu.Lock()
 	defer t.mu.Unlock()
@@ -202,8 +214,16 @@ func freeAddr() string {
 // earlier scenario may still be reading it.
 var curTracer atomic.Pointer[Tracer]
 
+// noTrace (VERIF_NOTRACE=1): the hook does nothing at all. The tracer's mutex orders every pair of instrumentation
+// points and would hide data races between them from the race detector; the race-detector-only runs of C15 therefore
+// run without it (Wait / Count degrade to short sleeps, and only a dead process counts as a failure).
+var noTrace = os.Getenv("VERIF_NOTRACE") == "1"
+
 func init() {
 	gldap.VerifHook = func(label string, conn, req int) {
+		if noTrace {
+			return
+		}
 		if t := curTracer.Load(); t != nil {
 			t.Hook(label, conn, req)
 		}
@@ -215,7 +235,8 @@ func init() {
 var scenarioCount int64
 
 func scenarioLogger() hclog.Logger {
-	if atomic.AddInt64(&scenarioCount, 1)%2 == 0 {
+	// (never in the race-detector-only runs: a logger's internal mutex orders the calls of different goroutines)
+	if !noTrace && atomic.AddInt64(&scenarioCount, 1)%2 == 0 {
 		return hclog.New(&hclog.LoggerOptions{Level: hclog.Trace, Output: io.Discard})
 	}
 	return hclog.NewNullLogger()
@@ -279,6 +300,10 @@ func (s *SUT) stop(d time.Duration) bool {
 func (s *SUT) finish() {
 	s.tr.ReleaseAll()
 	s.stop(3 * time.Second)
+	if noTrace {
+		time.Sleep(50 * time.Millisecond)
+		return
+	}
 	deadline := time.Now().Add(3 * time.Second)
 	for time.Now().Before(deadline) {
 		if s.tr.Count("conn.gone", -1) >= s.tr.Count("run.added", -1) {
